@@ -62,7 +62,7 @@ Definition check_vm (impl_code : list ipos) (o : obs) (stdout : list Z) (gvars :
 
 (** the property itself: the real run ends as the reference semantics prescribe *)
 Definition check_sem (dims : list (name * pos)) (p : program) (o : obs) (stdout : list Z) (gvars : env) (fuel : nat) : nat :=
-  match obs_of_s (exec_program num_text is_negative fuel p (mk_state (map (fun d => (fst d, default_of (snd (fst d)))) dims) io0)) with
+  match obs_of_s (exec_main num_text is_negative fuel dims p) with
   | None => 6
   | Some (so, ss) =>
       if negb (obs_eqb so o) then 6
